@@ -119,7 +119,7 @@ pub fn gen_doc(rng: &mut Rng, id: String) -> Value {
   let mut m = Map::new();
   m.insert("_id".into(), json!(id));
   // skewed keyword choice so that some keys are frequent and some rare
-  let mut kwv = |rng: &mut Rng| -> String {
+  let kwv = |rng: &mut Rng| -> String {
     let r = rng.below(12);
     KW_VALUES[match r {
       0..=3 => 0,
@@ -1118,7 +1118,8 @@ impl Prop for C12 {
     tier.pick(220, 10000)
   }
   fn gen(&self, rng: &mut Rng, _tier: Tier, i: usize) -> Value {
-    let n = 1 + rng.below(if rng.chance(1, 4) { 24 } else { 12 });
+    let big = rng.chance(1, 4);
+    let n = 1 + rng.below(if big { 24 } else { 12 });
     let docs: Vec<Value> = (0..n).map(|d| gen_doc(rng, format!("d{d}"))).collect();
     let n_layouts = 3 + rng.below(3);
     let layouts = gen_layouts(rng, &docs, n_layouts);
